@@ -19,6 +19,7 @@
 -/
 import Gedcom.Lemmas.EqualLaws
 import Gedcom.Model.DateGuard
+import Gedcom.Lemmas.Calendar
 namespace Gedcom
 open G
 
@@ -129,6 +130,68 @@ theorem dateValueEquals_plain (a b : Str) (ha : plainDateValue a = true)
       rw [PDate.equals_plain _ _ ha.1 hb.1, PDate.equals_plain _ _ ha.2 hb.2]
       simp only [DateRange.isValid, Bool.and_eq_true, Bool.not_eq_true'] at va vb
       simp [va.1, va.2, vb.1, vb.2, hs, he]
+
+/-! ## the plain dates are exactly the dates that are symmetric against every date -/
+
+theorem PDate.yearsFrac_den_pos (d : PDate) : 0 < d.yearsFrac.2 := by
+  unfold PDate.yearsFrac
+  split
+  · simp
+  · split
+    · rcases yearsDen_cases d.toDate with h | h <;> simp [h]
+    · split <;> simp
+
+/-- for every non-zero date with a before / after constraint there is a date (year 1 or year 2
+    with the same constraint) against which `Date.Equals` is not symmetric -/
+theorem oneSided_breaks (a : PDate) (hz : a.isZero = false) (h : a.constraint.oneSided = true) :
+    ∃ b : PDate, b.isZero = false ∧ a.asymPair b = true := by
+  have f1 : ∀ c, PDate.yearsFrac ⟨0, 0, 1, c, false⟩ = (1098, 732) := by
+    intro c; cases c <;> decide
+  have f2 : ∀ c, PDate.yearsFrac ⟨0, 0, 2, c, false⟩ = (1830, 732) := by
+    intro c; cases c <;> decide
+  have hp := PDate.yearsFrac_den_pos a
+  by_cases c1 : (a.yearsLt ⟨0, 0, 1, a.constraint, false⟩ ||
+      PDate.yearsLt ⟨0, 0, 1, a.constraint, false⟩ a) = true
+  · refine ⟨⟨0, 0, 1, a.constraint, false⟩, rfl, ?_⟩
+    unfold PDate.asymPair
+    rw [hz, h, c1]
+    simp [PDate.isZero]
+  · by_cases c2 : (a.yearsLt ⟨0, 0, 2, a.constraint, false⟩ ||
+        PDate.yearsLt ⟨0, 0, 2, a.constraint, false⟩ a) = true
+    · refine ⟨⟨0, 0, 2, a.constraint, false⟩, rfl, ?_⟩
+      unfold PDate.asymPair
+      rw [hz, h, c2]
+      simp [PDate.isZero]
+    · exfalso
+      simp only [PDate.yearsLt, f1, f2, Bool.or_eq_true, decide_eq_true_eq, not_or] at c1 c2
+      omega
+
+/-- EXACT.  A non-zero date is symmetric against every date iff it carries no before / after
+    constraint: the plain class cannot be enlarged by any single date. -/
+theorem symm_against_all_iff_plain (a : PDate) (hz : a.isZero = false) :
+    (∀ b : PDate, a.equals b = b.equals a) ↔ plainPDate a = true := by
+  constructor
+  · intro hall
+    cases hc : a.constraint.oneSided
+    · simp [plainPDate, hc]
+    · obtain ⟨b, _, hb⟩ := oneSided_breaks a hz hc
+      have := (PDate.equals_symm_iff a b).mp (hall b)
+      rw [hb] at this; cases this
+  · intro hp b
+    apply (PDate.equals_symm_iff a b).mpr
+    simp only [plainPDate, Bool.not_eq_true'] at hp
+    simp [PDate.asymPair, hp]
+
+/-- `DateRange.Equals` is symmetric on two values unless the start pair or the end pair is an
+    asymmetric pair of `Date.Equals` -/
+theorem dateValueEquals_symm_of_noAsym (a b : Str)
+    (hs : (parseDateRange a).start.asymPair (parseDateRange b).start = false)
+    (he : (parseDateRange a).end_.asymPair (parseDateRange b).end_ = false) :
+    dateValueEquals a b = dateValueEquals b a := by
+  unfold dateValueEquals DateRange.equals
+  rw [(PDate.equals_symm_iff _ _).mpr hs, (PDate.equals_symm_iff _ _).mpr he]
+  rw [Bool.and_comm (parseDateRange a).isPhrase, Bool.and_comm (!(parseDateRange a).isValid),
+    Bool.beq_comm (a := (parseDateRange a).original)]
 
 /-! ## `dateEquiv` is "symmetric and transitive on D" -/
 
